@@ -793,6 +793,8 @@ func tagOf(n *node) string {
 	return n.leaf
 }
 
+var headRe = regexp.MustCompile(`(?m)^(request|response)\(`)
+
 var idRe = regexp.MustCompile(`#m([0-9]+)\)`)
 
 // classify maps an error message of the implementation to (exchange id, verifier tag).
@@ -920,6 +922,11 @@ func count(msgs []string) map[key]int {
 // check compares a query result with the ledger: one error per unmet evaluation since the
 // last reset, none lost, none duplicated, none from API exchanges or from before the reset.
 func (o *oracle) check(msgs []string) (fail, sig string) {
+	for _, s := range msgs {
+		if len(headRe.FindAllString(s, -1)) > 1 {
+			return "one reported error carries several failures (nested errors not flattened): " + strconv.Quote(s), "c13:not-flat"
+		}
+	}
 	exp, got := o.expected(), count(msgs)
 	var keys []key
 	for k := range exp {
@@ -957,11 +964,6 @@ func (o *oracle) check(msgs []string) (fail, sig string) {
 			return "failure duplicated: " + what, "c13:duplicated"
 		default:
 			return "error reported without an unmet evaluation: " + what, "c13:extra"
-		}
-	}
-	for _, s := range msgs {
-		if strings.Count(s, "#m") > 1 {
-			return "one reported error carries several failures (not flattened): " + strconv.Quote(s), "c13:not-flat"
 		}
 	}
 	return "", ""
